@@ -221,6 +221,12 @@ func c07EvalBechEnc(w *mc.W, cas c07Bech) {
 		w.Outcome("bech32 encode: longer than 90 (outside the statement)")
 		return
 	}
+	if cas.Hrp != strings.ToLower(cas.Hrp) {
+		// an upper-case prefix given to the ENCODER is outside BIP173 (the result is mixed case); only
+		// the comparison with the reference above applies.  The call matters for what it leaves behind.
+		w.Outcome("bech32 encode: upper-case prefix (comparison with the reference only)")
+		return
+	}
 	for _, variant := range []string{enc, strings.ToUpper(enc)} {
 		var hrp string
 		var dd []byte
@@ -862,6 +868,34 @@ func runC07(c *mc.Ctx) {
 		}
 	}
 	c.Sample("conv", convs[300])
+	// which call came first: every ordered pair over a menu of calls (encoder with a lower-case and
+	// with an UPPER-case prefix, decoder on a lower-case and an upper-case string, the Base58 pair),
+	// each pair in a process of its own - a table or memo filled by the first call (keyed by a folded
+	// prefix, say) is then read by the second
+	{
+		d5 := mc.Hex([]byte{0, 14, 20, 15, 7, 13, 26, 0, 25, 18, 6, 11, 13, 8, 21, 4, 20, 3, 17, 2, 29, 3, 12, 29, 3, 4, 15, 24, 20, 6, 14, 30, 22})
+		lower := "bc1qw508d6qejxtdg4y5r3zarvary0c5xw7kv8f3t4"
+		menu := []mc.KindCase{
+			{Kind: "bechenc", Case: c07Bech{Hrp: "bc", Data: d5}},
+			{Kind: "bechenc", Case: c07Bech{Hrp: "BC", Data: d5}},
+			{Kind: "bechenc", Case: c07Bech{Hrp: "tb", Data: d5}},
+			{Kind: "bechstr", Case: c07Str{Fn: "bech", S: mc.Hex([]byte(lower))}},
+			{Kind: "bechstr", Case: c07Str{Fn: "bech", S: mc.Hex([]byte(strings.ToUpper(lower)))}},
+			{Kind: "b58bytes", Case: c07Bytes{Fn: "b58", Hex: "0001ff"}},
+			{Kind: "b58str", Case: c07Str{Fn: "b58", S: mc.Hex([]byte("1Il"))}},
+		}
+		var seqs [][]mc.KindCase
+		for _, a := range menu {
+			for _, b := range menu {
+				seqs = append(seqs, []mc.KindCase{a, b})
+				if a.Kind == "bechenc" && b.Kind != "bechenc" {
+					seqs = append(seqs, []mc.KindCase{a, b, menu[0], menu[3]})
+				}
+			}
+		}
+		c.Space("ordered pairs (and some quadruples) of calls over a 7-call menu, each sequence in a process of its own", int64(len(seqs)))
+		c.FreshSeqAll(seqs)
+	}
 }
 
 var bip173Valid = []string{
